@@ -178,6 +178,15 @@ def main():
             ccdiff += 1
             if first_diff is None: first_diff = ([cl[ccases.index((w, eps, cs))]], a, b)
     # ---- timed / periodic / exact-solution conditions (real time, safe direction only)
+    # every check interval: a period of exactly 0 (no evaluation thread: the predicate is evaluated directly), a very short one, an interval
+    # longer than the duration (clamped), a zero duration
+    extra = ["PERIODIC 0", "PERIODIC 0.0005", "TIMED2 0.05 0", "TIMED2 0 0.01", "TIMED2 0.02 0.1", "TIMED2 0.05 0.0005"]
+    rc6, o6, e6, s6 = vf.sh([drv], input="\n".join(extra) + "\n", timeout=120); c.step("impl:timed-periodic-intervals", drv, s6, rc6 == 0)
+    for l6, out6 in zip(extra, [x for x in o6.split("\n") if x.strip()] + ["<no output>"] * len(extra)):
+        want6 = ["periodic", "0", "1", "0", "1", "1"] if l6.startswith("PERIODIC") else ["timed2", "0", "1", "1"]
+        if out6.split() != want6:
+            npred += 1
+            if first_pred is None: first_pred = ([l6], "%s: expected %s, observed '%s' (%s)" % (l6, " ".join(want6[1:]), out6, "follows its predicate in both directions, true after terminate()" if l6.startswith("PERIODIC") else "false before the duration, true after duration + interval, never reverting"))
     rc5, o5, e5, s5 = vf.sh([drv], input="TIMED 0.1\nPERIODIC 0.02\nEXACT\n" + ("" if quick else "W 5\n"), timeout=120)
     c.step("impl:timed-periodic-exact", drv, s5, rc5 == 0)
     got = {l.split()[0]: l.split()[1:] for l in o5.split("\n") if l.strip()}
